@@ -265,8 +265,15 @@ func main() {
 			cases = append(cases, c)
 		})
 	}
-	for _, c := range cases {
+	n0 := len(cases)
+	for i := 0; i < n0; i++ {
+		c := cases[i]
 		s.Execute(c)
+		// a case may spawn derived, already observed cases (e.g. the removal following a write)
+		if sp, ok := c["spawn"].([]Case); ok {
+			delete(c, "spawn")
+			cases = append(cases, sp...)
+		}
 	}
 	vs, err := runDriver(*driver, cases)
 	if err != nil {
